@@ -147,7 +147,7 @@ pub(crate) fn parse_directive(jsx_attr: &JSXAttr, is_component: bool) -> Directi
 fn lowercase_first(name: &str) -> String {
     let mut chars = name.chars();
     match chars.next() {
-        Some(first) => first.to_ascii_lowercase().to_string() + chars.as_str(),
+        Some(first) => first.to_lowercase().collect::<String>() + chars.as_str(),
         None => String::new(),
     }
 }
